@@ -90,7 +90,7 @@ def run_variant(v, tier="quick"):
         prop = v["prop"].lower()
         p = subprocess.run(
             ["/venv/bin/python", os.path.join(VERIF, "checks", prop + ".py"), "--tier", tier],
-            capture_output=True, text=True, env=env, cwd=VERIF, timeout=240,
+            capture_output=True, text=True, env=env, cwd=VERIF, timeout=1500,
         )
         out = p.stdout + p.stderr
         rc = p.returncode
